@@ -5,6 +5,7 @@ mod ex;
 mod c01;
 mod c06;
 mod c07;
+mod c08;
 mod sys;
 mod c11;
 mod c12;
@@ -25,6 +26,8 @@ fn main() {
         "c13" => c01::run_c13(rest),
         "c06" => c06::run(rest),
         "c07" => c07::run(rest),
+        "c08" => c08::run(rest),
+        "c18" => c08::run_c18(rest),
         "c11" => c11::run(rest),
         "c09" => c11::run_c09(rest),
         "c12" => c12::run(rest),
